@@ -21,7 +21,7 @@ def native_checks(tier, seed):
     per = 40 if tier == "quick" else 400
     for b in BASE:
         ref = parse(b)
-        toks = [t for t in re.split(r"(\bas\b|!+|[(),>:$=~])", b.replace(" ", "")) if t != ""]
+        toks = [t for w in b.split() for t in re.split(r"(!+|[(),>:$=~])", w) if t != ""]
         for _ in range(per):
             s = ""
             for i, t in enumerate(toks):
